@@ -465,6 +465,23 @@ func hnConnState(c *quic.Conn) string {
 	return "closed: " + err.Error()
 }
 
+// hnStuckSig normalises a list of pending tasks ("c1@blocked-in-operation") to
+// the kinds of tasks and where they are.
+func hnStuckSig(pending []string) string {
+	seen := map[string]bool{}
+	var out []string
+	for _, p := range pending {
+		name, where, _ := strings.Cut(p, "@")
+		k := strings.TrimRight(name, "0123456789") + "@" + where
+		if !seen[k] {
+			seen[k] = true
+			out = append(out, k)
+		}
+	}
+	sort.Strings(out)
+	return strings.Join(out, "+")
+}
+
 func hnTimeoutDeath(state string) bool {
 	return state == "idle_timeout" || state == "handshake_timeout"
 }
@@ -1000,6 +1017,11 @@ func (r *hnRun) caller(i int) func(tk *vs.Task) {
 			r.mu.Unlock()
 			res.Body.Close()
 		}
+		if os.Getenv("VERIF_H3NET_DUMP_AT") != "" {
+			if tb, ok := res.Body.(*transportResponseBody); ok {
+				hbDebugStreams = append(hbDebugStreams, (*roundTripState)(tb).st.stream)
+			}
+		}
 		r.mu.Lock()
 		rs.gotResp = true
 		hHeader, hStarted := rs.hHeader, rs.hStarted
@@ -1197,6 +1219,11 @@ func (r *hnRun) handler(w http.ResponseWriter, req *http.Request) {
 	if !cStarted {
 		r.setViol(vs.Violf("C34", "unknown_request_in_handler", "req:not_sent", "handler invoked for request %d which the client has not sent", idx))
 		return
+	}
+	if os.Getenv("VERIF_H3NET_DUMP_AT") != "" {
+		if br, ok := req.Body.(*bodyReader); ok {
+			hbDebugStreams = append(hbDebugStreams, br.st.stream)
+		}
 	}
 	tk := r.sim.Attach(fmt.Sprintf("h%d", idx))
 	defer func() {
@@ -1470,6 +1497,14 @@ func hnRunC34(t *testing.T, rt *rapid.T) {
 					if r.cc != nil {
 						fmt.Printf("VERIF-DEBUG client conn %+v\n", *r.cc.qconn)
 					}
+					for _, qs := range hbDebugStreams {
+						fmt.Printf("VERIF-DEBUG stream %+v\n", *qs)
+					}
+					srv.mu.Lock()
+					for sc := range srv.activeConns {
+						fmt.Printf("VERIF-DEBUG server conn %+v\n", *sc.qconn)
+					}
+					srv.mu.Unlock()
 				})
 				defer tm.Stop()
 			}
@@ -1502,7 +1537,7 @@ func hnRunC34(t *testing.T, rt *rapid.T) {
 					logs = append(logs, rs.log...)
 				}
 				r.mu.Unlock()
-				viol = vs.Violf("C34", "liveness", "net:stuck_after_heal", "%v of simulated time after the network healed (at %v) these tasks have not finished (connection %s, %d datagrams in flight): %v\n%s", 120*time.Second, p.faults.HealAt, state, pnet.InFlight(), pending, strings.Join(logs, "\n"))
+				viol = vs.Violf("C34", "liveness", "net:stuck_after_heal:"+hnStuckSig(pending), "%v of simulated time after the network healed (at %v) these tasks have not finished (connection %s, %d datagrams in flight): %v\n%s", 120*time.Second, p.faults.HealAt, state, pnet.InFlight(), pending, strings.Join(logs, "\n"))
 			}
 		}
 		if viol == nil && hnTimeoutDeath(state) {
@@ -1916,8 +1951,8 @@ func hbDrawMessage(c vs.Chooser, mode string, k int, win int) *hbStream {
 			// shorten a HEADERS frame so that its declared end falls inside a field line
 			for jj := range frames {
 				f := &frames[(j+jj)%len(frames)]
-				if f.typ != hbTHeaders || len(f.payload) < 3 || f.lenOver >= 0 {
-					continue
+				if f.typ != hbTHeaders || len(f.payload) < 3 || f.lenOver >= 0 || f.bounds == nil {
+					continue // (only a field section the encoder produced has known line ends)
 				}
 				cut := 1 + c.Intn(len(f.payload)-1)
 				onBound := false
@@ -1991,7 +2026,7 @@ func hbDrawMessage(c vs.Chooser, mode string, k int, win int) *hbStream {
 				if f.typ != hbTHeaders {
 					continue
 				}
-				f.payload = hbHostileSection(c, f.payload)
+				f.payload, f.bounds = hbHostileSection(c, f.payload), nil
 				st.ops = append(st.ops, op)
 				break
 			}
@@ -2012,7 +2047,7 @@ func hbDrawMessage(c vs.Chooser, mode string, k int, win int) *hbStream {
 				}
 				n := int64(vs.Pick(c, 1<<50, 1<<62, 1<<63-8, 1<<48))
 				f.payload = append(append([]byte{0, 0}, appendPrefixedInt(nil, 0x20, 3, n)...), hbBytes(c, 40)...)
-				f.lenOver, f.lenW = 1<<62-1, 8
+				f.lenOver, f.lenW, f.bounds = 1<<62-1, 8, nil
 				st.ops = append(st.ops, op)
 				break
 			}
